@@ -62,7 +62,7 @@ pub struct TagSpec {
 }
 
 const NAME_CHARS: &[&str] = &["a", "b", "Z", "0", "9", "-", "_", "é", "ж", "名", "ß"];
-const VALUE_CHARS: &[&str] = &["a", "B", "1", " ", "#", ">", "<", "=", "/", "é", "→", "\t", ".", ":", ",", "&quot;", "x y", "</block>", "<block>", "\\", "\\"];
+const VALUE_CHARS: &[&str] = &["a", "B", "1", " ", "#", ">", "<", "=", "/", "é", "→", "\t", ".", ":", ",", "&quot;", "x y", "</block>", "<block>", "\\", "\\", "x\\)", "y\\(x\\)"];
 const SPACES: &[&str] = &[" ", "  ", "\t", " \t "];
 
 fn rand_name(rng: &mut Rng) -> String {
@@ -361,7 +361,18 @@ pub fn gen_file_c(rng: &mut Rng, l: &L, opts: &Opts, patterns: &mut Vec<String>,
                     2 if !tag_has_sq => ("'", "'"),
                     _ => ("(", ")"),
                 };
-                let body2 = if od == "(" { body.replace(['(', ')'], " ") } else { body.clone() };
+                // a title in parentheses may hold parentheses that are backslash-escaped (kept as written); others are blanked
+                // (a parenthesis is escaped iff an odd number of backslashes stands directly before it)
+                let only_escaped = {
+                    let cs: Vec<char> = body.chars().collect();
+                    (0..cs.len()).all(|i| {
+                        if cs[i] != '(' && cs[i] != ')' { return true; }
+                        let mut k = 0;
+                        while k < i && cs[i - 1 - k] == '\\' { k += 1; }
+                        k % 2 == 1
+                    })
+                };
+                let body2 = if od == "(" && !only_escaped { body.replace(['(', ')'], " ") } else { body.clone() };
                 // the title may start on the line after the destination
                 let brk = if rng.chance(1, 4) { format!("{nl}  ") } else { " ".to_string() };
                 text += &format!("{nl}[//]: #{brk}{od}{}{cd}{nl}{nl}", body2.replace('\n', " "));
